@@ -1,60 +1,187 @@
+/-! # L11 — the hijacked watch (`hijackWatch`, client/apis/apps/v1/helper/hijack.go) as an interleaving transition system
+
+Three parties: the underlying watch (the *source*), the relay goroutine `(*hijackWatch).receive`, and the consumer of
+`ResultChan()`. The state records the source's queue (events offered on its channel and not yet taken by the relay), whether the
+source channel is closed, the relay's program counter, whether the result channel is closed, the `stopped` flag, and the
+consumer's log. Actions: `srcSend`, `srcClose`, `relayStep`, `consumerRecv`, `consumerStop`; every interleaving is a list of actions.
+
+The model is parametrised by a `Variant`:
+* `.fixed`  — the relay with the proposed repair (non-StatefulSet payloads are relayed unchanged; the send to the consumer also
+              selects on a `done` channel closed by `Stop`). The C20 theorems are about this variant.
+* `.pinned` — the relay as it is in the pinned tree (a non-StatefulSet payload panics; a blocked send is never released). Kept so
+              that the same driver can be compared with the unrepaired code, and so that "crashed" is a state the model can express.
+
+What is NOT modelled: the Go scheduler and memory model (each action is atomic; `Stop`'s mutex is folded into atomicity), the
+bytes of the objects (C19 covers the conversion itself: `convert` only records that a StatefulSet payload becomes the built-in
+type and that type and identity are kept), `ToBuiltinStatefulSet` failing on an object the API server served (its `panic(err)`
+is assumed unreachable). The tie to the Go code is observational (engine `watch`). Core-only: no Mathlib import. -/
 namespace Asts.Watch
 
-/-- an event offered by the underlying watch: its type, and whether the payload is a *StatefulSet
-    (Error events carry a *metav1.Status) -/
-structure Ev where
-  kind  : Nat        -- 0 Added 1 Modified 2 Deleted 3 Bookmark 4 Error
-  isSet : Bool
+inductive EvType | added | modified | deleted | bookmark | error
   deriving DecidableEq, Repr
 
-inductive Relay | recvWait | sendWait (e : Ev) | exited | crashed
+/-- what an event carries -/
+inductive Payload
+  | asSet    -- `*asv1.StatefulSet`, what the watch on the CRD delivers
+  | status   -- `*metav1.Status` (Error events)
+  | other    -- any other object
+  | builtin  -- `*appsv1.StatefulSet`: the conversion of an `asSet`
+  | bad      -- observation side only: a payload that is none of the above (nil, a built-in set with the wrong content, ...)
+  deriving DecidableEq, Repr
+
+structure Ev where
+  typ : EvType
+  pay : Payload
+  id  : Nat          -- identity of the object (its name) — lets order, loss and duplication be seen
+  deriving DecidableEq, Repr
+
+/-- what the relay hands to the consumer for a source event: same type, same identity, StatefulSet payloads converted -/
+def convert (e : Ev) : Ev := if e.pay = .asSet then { e with pay := .builtin } else e
+
+inductive Variant | pinned | fixed
+  deriving DecidableEq, Repr
+
+/-- program counter of `receive` -/
+inductive Pc
+  | recvWait            -- blocked in `<-w.source.ResultChan()`
+  | sendWait (o : Ev)   -- blocked in `w.result <- o` (fixed: `select` together with `<-w.done`)
+  | stopping            -- left the loop (source ended, `done` closed, or a recovered panic); deferred `w.Stop()` is next
+  | closing             -- deferred `close(w.result)` is next
+  | exited              -- the goroutine is gone
   deriving DecidableEq, Repr
 
 structure W where
-  pending      : Option Ev := none   -- an event offered on the source's unbuffered channel, not yet taken
-  srcClosed    : Bool := false       -- source channel closed (source ended, or source.Stop())
-  relay        : Relay := .recvWait
+  queue        : List Ev := []     -- offered by the source, not yet taken by the relay
+  srcClosed    : Bool := false     -- source channel closed (the source ended, or somebody called `source.Stop()`)
+  pc           : Pc := .recvWait
   resultClosed : Bool := false
-  stopped      : Bool := false       -- hijackWatch.stopped
-  delivered    : List Ev := []
+  stopped      : Bool := false     -- `hijackWatch.stopped` (fixed: `done` is closed exactly when this is set)
+  panicked     : Bool := false     -- the relay panicked (`HandleCrash` ran; with the default `ReallyCrash` the process is dead)
+  log          : List Ev := []     -- what the consumer has received, in order
+  sent         : List Ev := []     -- ghost: everything the source has offered, in order
   deriving DecidableEq, Repr
 
-/-- the relay goroutine (`receive`, hijack.go:190-213) runs until it blocks or ends -/
-def relayRun (w : W) : W :=
-  match w.relay with
+/-- the relay has received `e` from the source (queue tail `q`) -/
+def relayTake (v : Variant) (w : W) (e : Ev) (q : List Ev) : W :=
+  if v = .pinned ∧ e.pay ≠ .asSet then
+    { w with queue := q, pc := .stopping, panicked := true }      -- `panic("unreachable")`, recovered by `HandleCrash`
+  else { w with queue := q, pc := .sendWait (convert e) }
+
+/-- one step of the relay goroutine; `none` = blocked (or gone) -/
+def relayStep? (v : Variant) (w : W) : Option W :=
+  match w.pc with
   | .recvWait =>
-    match w.pending with
-    | some e =>
-      if e.isSet then { w with pending := none, relay := .sendWait e }
-      else { w with pending := none, relay := .crashed }          -- `panic("unreachable")`
-    | none =>
-      if w.srcClosed then { w with relay := .exited, stopped := true, resultClosed := true }   -- deferred Stop + close
-      else w
-  | _ => w
+    match w.queue with
+    | e :: q => some (relayTake v w e q)
+    | [] => if w.srcClosed then some { w with pc := .stopping } else none
+  | .sendWait _ => if v = .fixed ∧ w.stopped then some { w with pc := .stopping } else none
+  | .stopping => some { w with pc := .closing, stopped := true, srcClosed := true }
+  | .closing => some { w with pc := .exited, resultClosed := true }
+  | .exited => none
 
-inductive Act | srcSend (e : Ev) | srcClose | recv | stop
+inductive Act
+  | srcSend (e : Ev)
+  | srcClose (keep : Nat)       -- the source ends; `keep` = how many queued events stay readable (0 for an unbuffered channel
+                                --   whose blocked send is withdrawn, everything for a buffered one)
+  | relayStep
+  | consumerRecv
+  | consumerStop (keep : Nat)   -- `Stop()`; includes `source.Stop()`, `keep` as above
   deriving DecidableEq, Repr
 
-inductive Res | taken | offered | dropped | got (e : Ev) | closed | blocked | done
+def act (v : Variant) (w : W) : Act → W
+  | .srcSend e => if w.srcClosed then w else { w with queue := w.queue ++ [e], sent := w.sent ++ [e] }
+  | .srcClose k => if w.srcClosed then w else { w with srcClosed := true, queue := w.queue.take k }
+  | .relayStep => (relayStep? v w).getD w
+  | .consumerRecv =>
+    match w.pc with
+    | .sendWait o => { w with pc := .recvWait, log := w.log ++ [o] }
+    | _ => w
+  | .consumerStop k => if w.stopped then w else { w with stopped := true, srcClosed := true, queue := w.queue.take k }
+
+def exec (v : Variant) (w : W) (as : List Act) : W := as.foldl (act v) w
+
+/-- reachable = the result of some finite interleaving from the initial state (watch just opened) -/
+def Reachable (v : Variant) (w : W) : Prop := ∃ as, exec v {} as = w
+
+/-- explicit measure of the relay's remaining work when nobody else moves -/
+def rank (w : W) : Nat :=
+  match w.pc with
+  | .recvWait => 4 | .sendWait _ => 3 | .stopping => 2 | .closing => 1 | .exited => 0
+
+/-- measure that also counts the source queue: decreases with every relay step and every effective receive -/
+def mu (w : W) : Nat :=
+  match w.pc with
+  | .recvWait => 2 * w.queue.length + 3
+  | .sendWait _ => 2 * w.queue.length + 4
+  | .stopping => 2 | .closing => 1 | .exited => 0
+
+/-- `n` relay steps in a row -/
+inductive RelayRun (v : Variant) : W → Nat → W → Prop
+  | done (w : W) : RelayRun v w 0 w
+  | step {w w' w'' : W} {n : Nat} : relayStep? v w = some w' → RelayRun v w' n w'' → RelayRun v w (n + 1) w''
+
+def settleN (v : Variant) : Nat → W → W
+  | 0, w => w
+  | n + 1, w => match relayStep? v w with
+    | some w' => settleN v n w'
+    | none => w
+
+/-- the relay runs until it blocks or is gone (never more than `rank ≤ 4` steps) -/
+def settle (v : Variant) (w : W) : W := settleN v 4 w
+
+/-! ## scripts: the schedules the `watch` engine plays
+
+A script fixes the order of the *external* actions; after each of them the relay runs until it blocks. The source of the engine
+is an unbuffered channel: at most one offer is outstanding, further sends are dropped, ending the source withdraws the offer. -/
+
+inductive SAct | send (t : EvType) (p : Payload) | close | recv | stop
   deriving DecidableEq, Repr
 
-def step (w : W) : Act → W × Res
-  | .srcSend e =>
-    if w.srcClosed || w.pending.isSome then (w, .dropped)
+inductive Res | taken | offered | dropped | done | got (e : Ev) | closed | blocked | panic
+  deriving DecidableEq, Repr
+
+structure SRes where
+  res  : Res
+  took : Bool := false      -- the source's outstanding send completed while the relay settled after this action
+  deriving DecidableEq, Repr
+
+/-- what a receive attempt finds -/
+def recvObs (w : W) : Res :=
+  match w.pc with
+  | .sendWait o => .got o
+  | _ => if w.resultClosed then .closed else .blocked
+
+def sstep (v : Variant) (w : W) (id : Nat) : SAct → W × SRes
+  | .send t p =>
+    if w.srcClosed || !w.queue.isEmpty then (w, { res := .dropped })
     else
-      let w' := relayRun { w with pending := some e }
-      (w', if w'.pending.isNone then .taken else .offered)
-  | .srcClose => (relayRun { w with srcClosed := true, pending := none }, .done)
+      let w' := settle v (act v w (.srcSend { typ := t, pay := p, id := id }))
+      (w', { res := if w'.queue.isEmpty then .taken else .offered })
+  | .close => (settle v (act v w (.srcClose 0)), { res := .done })
   | .recv =>
-    match w.relay with
-    | .sendWait e => (relayRun { w with relay := .recvWait, delivered := w.delivered ++ [e] }, .got e)
-    | _ => if w.resultClosed then (w, .closed) else (w, .blocked)
-  | .stop =>
-    if w.stopped then (w, .done)
-    else (relayRun { w with stopped := true, srcClosed := true, pending := none }, .done)
+    let w' := settle v (act v w .consumerRecv)
+    (w', { res := recvObs w, took := !w.queue.isEmpty && w'.queue.isEmpty })
+  | .stop => (settle v (act v w (.consumerStop 0)), { res := .done })
 
-def run (w : W) : List Act → W × List Res
+def isSend : SAct → Bool | .send _ _ => true | _ => false
+
+def srun (v : Variant) (w : W) (id : Nat) : List SAct → W × List SRes
   | [] => (w, [])
-  | a :: as => let (w', r) := step w a; let (w'', rs) := run w' as; (w'', r :: rs)
+  | a :: as =>
+    let (w', r) := sstep v w id a
+    let (w'', rs) := srun v w' (if isSend a then id + 1 else id) as
+    (w'', r :: rs)
+
+/-- what the engine prints for a script -/
+structure Obs where
+  res        : List SRes
+  relayAlive : Bool
+  final      : Res        -- one more receive attempt, made after `relayAlive` was recorded
+  panicked   : Bool
+  deriving DecidableEq, Repr
+
+def observe (v : Variant) (script : List SAct) : Obs :=
+  let (w, rs) := srun v (settle v {}) 0 script
+  { res := rs, relayAlive := w.pc != .exited, final := recvObs w, panicked := w.panicked }
 
 end Asts.Watch
